@@ -244,6 +244,8 @@ def _r5(ctx: Context, tree: str, N: Names) -> None:
             for st in init.node.body:
                 if isinstance(st, ast.Assign) and isinstance(st.targets[0], ast.Attribute) and norm(st.targets[0]) in ("self._max_connections", "self._max_keepalive_connections"):
                     env[norm(st.targets[0])] = peval(st.value, env)
+                elif isinstance(st, ast.Assign) and len(st.targets) == 1 and isinstance(st.targets[0], ast.Name):
+                    env[st.targets[0].id] = peval(st.value, env)        # a local that carries an intermediate value
             got = env.get("self._max_keepalive_connections", UNKNOWN)
             want = min(INF if mc is None else mc, INF if mk is None else mk)
             if got is UNKNOWN or got != want:
